@@ -450,7 +450,10 @@ func (x *Exec) subAddr(si *StructI, i int, addr Term) Term {
 	f := x.declareFun(fmt.Sprintf("sub!%s!%s", si.Named, cleanName(si.Fields[i].Name)), []Sort{SInt}, SInt)
 	if len(x.axioms[f]) == 0 {
 		// the address of an embedded struct is non-nil iff the enclosing object's is
-		x.axioms[f] = []string{fmt.Sprintf("(forall ((a!s Int)) (! (=> (not (= a!s 0)) (not (= (%s a!s) 0))) :pattern ((%s a!s))))", f, f)}
+		x.declare("brk!", SInt)
+		x.axioms[f] = []string{fmt.Sprintf("(forall ((a!s Int)) (! (=> (not (= a!s 0)) (not (= (%s a!s) 0))) :pattern ((%s a!s))))", f, f),
+			// an embedded struct lives inside its enclosing object: both existed at entry, or neither
+			fmt.Sprintf("(forall ((a!s Int)) (! (= (< (%s a!s) brk!) (< a!s brk!)) :pattern ((%s a!s))))", f, f)}
 	}
 	return App(f, SInt, addr)
 }
